@@ -9,7 +9,8 @@ The model mirrors the REPAIRED code (fixes/C08-*.patch):
   counts beats of the time signature's beat type (not quarters);
 * importer: beat types are looked up by position in beats with the beats-indexed map; positions in
   quarters come from one piecewise-linear beats→quarters map; signature positions are rounded and
-  fall back to the line's position in beats; key signatures are added at the bar start.
+  fall back to the line's position in beats; key signatures are added at the bar start; the last bar is
+  closed with the signature in force at its first note, looked up in beats (fix C08-17).
 
 Only Lean core + Model/Basic + Model/Pitch (secToTick / tickToSec).
 -/
@@ -421,6 +422,22 @@ def denAtBeats (ts : List TSLine) (maxTime : Rat) (b : Rat) : Nat :=
     | some p => p.2
     | none => s.den
 
+/-- `beats_map_from_beats`: the number of beats per bar, looked up exactly as `denAtBeats` looks up the beat type -/
+def numAtBeats (ts : List TSLine) (maxTime : Rat) (b : Rat) : Nat :=
+  match ts with
+  | [] => 4
+  | s :: _ =>
+    let pts := sortBy (fun a c => decide (a.1 ≤ c.1))
+      (ts.map (fun x => (x.timeB, x.num)) ++ [(maxTime, (ts.getLast?.getD s).num)])
+    let before := pts.filter fun p => decide (p.1 ≤ b)
+    match before.getLast? with
+    | some p => p.2
+    | none => s.num
+
+/-- length in divisions of one bar of `num/den`: `int(round(divs * beats * 4 / beat_type))` -/
+def barLenDivs (divs num den : Nat) : Int :=
+  roundHalfEven ((divs : Rat) * (num : Rat) * 4 / (den : Rat))
+
 /-- position in quarters of each time-signature change -/
 def tsQuarters : List TSLine → Rat → List (TSLine × Rat)
   | [], _ => []
@@ -523,15 +540,11 @@ def reconstruct (raw : List SNote) (ts : List TSLine) (ks : List (Rat × Int)) :
   let barlines := bars.map fun (b, q) => (b, clip (roundHalfEven ((divs : Rat) * (q - shiftQ))))
   let lastBar ← bars.getLast?
   let lastBl ← barlines.getLast?
-  -- beats_map / beat_type_map at the last barline: interp1d(kind="previous") over the signature positions in
-  -- quarters with the end point (max_time, last signature) appended; scipy sorts the points by position
-  let q0 := (ts.head?.map fun s => s.timeB * 4 / (s.den : Rat)).getD 0
-  let tq := tsQuarters ts q0
-  let lastSig := ts.getLast?.getD default
-  let endQ := ((tq.getLast?.map (·.2)).getD q0) + 4 * (maxTime - lastSig.timeB) / (lastSig.den : Rat)
-  let pts := sortBy (fun a c => decide (a.2 ≤ c.2)) (tq ++ [(lastSig, endQ)])
-  let lastTs := ((pts.filter fun p => decide (p.2 ≤ lastBar.2)).getLast?.map (·.1)).getD (ts.head?.getD default)
-  let lastBarEnd := lastBl.2 + roundHalfEven ((divs : Rat) * (lastTs.num : Rat) * 4 / (lastTs.den : Rat))
+  -- the last bar is as long as the signature in force at its first note says, looked up in beats (fix C08-17; the
+  -- reconstructed bar line can lie a rounding error before the change of signature that starts the bar)
+  let lastFirst ← firstOfBar ns lastBar.1
+  let lastBarEnd := lastBl.2 + barLenDivs divs (numAtBeats ts maxTime lastFirst.onsetB)
+                                               (denAtBeats ts maxTime lastFirst.onsetB)
   -- position of a signature line, possibly before the first note (negative)
   let sigPos (bar : Int) (timeB : Rat) : Int :=
     match lookup bar bars with
@@ -548,6 +561,17 @@ def reconstruct (raw : List SNote) (ts : List TSLine) (ks : List (Rat × Int)) :
          tsPos := (keepInForce (ts.map fun s => (sigPos s.measure s.timeB, (s.num, s.den)))).map
                     fun (p, n, d) => (clip p, n, d)
          ksPos := (keepInForce (ks.map fun k => (sigPos k.2 k.1, ()))).map fun (p, _) => clip p }
+
+/-- the rule BEFORE fix C08-17 (kept for the witness): the signature closing the last bar was looked up at the
+    reconstructed bar line `q` IN QUARTERS, in `interp1d(kind="previous")` maps over the signature positions in
+    quarters with the end point (max_time, last signature) appended -/
+def closingSigByQuarters (ts : List TSLine) (maxTime q : Rat) : TSLine :=
+  let q0 := (ts.head?.map fun s => s.timeB * 4 / (s.den : Rat)).getD 0
+  let tq := tsQuarters ts q0
+  let lastSig := ts.getLast?.getD default
+  let endQ := ((tq.getLast?.map (·.2)).getD q0) + 4 * (maxTime - lastSig.timeB) / (lastSig.den : Rat)
+  let pts := sortBy (fun a c => decide (a.2 ≤ c.2)) (tq ++ [(lastSig, endQ)])
+  ((pts.filter fun p => decide (p.2 ≤ q)).getLast?.map (·.1)).getD (ts.head?.getD default)
 
 /-! ## end to end: write, then read -/
 
